@@ -46,7 +46,7 @@ chk("C12", "exploration", "runtime monitor over recorded UCI sessions (real Loop
 chk("C13", "exploration", "runtime monitor: deterministic sweep of the time-budget computation through a verif-tagged wrapper + limited searches observed through driver/trace (depth, nodes, searchmoves, movetime, live clock budget)",
     "Budget clause: the parameter grid is swept completely in both tiers (deterministic). Search clauses: held-on-what-was-explored; temporal clause by isolate-and-reproduce.",
     "Trusted: node overshoot bound 256; allowance 250 ms decided only if reproducible in isolation.")
-chk("C14", "exploration", "Go race detector over lifecycle histories and UCI sessions; per-call watchdog with goroutine-dump classification; offline trace checker (exactly-once, ownership of timers/stops); porcupine linearizability against the sequential lifecycle model",
+chk("C14", "exploration", "Go race detector over lifecycle histories and UCI sessions; per-call watchdog with two-dump deadlock proof and causal interventions for calls blocked by a live search (end the running search / repeat the stop from another goroutine and see whether the blocked call returns only then); seeded delays and rendezvous at hook points (timer held before its fire, stop meeting the firing timer), single-processor histories; offline trace checker (exactly-once, ownership of timers/stops); porcupine linearizability against the sequential lifecycle model",
     "Held-on-what-was-observed: distinct lifecycle interleavings are counted from the event order; schedules are sampled (seeded delays at hook points), not enumerated.",
     "Trusted: the sequential model of DESIGN Appendix B; race reports de-duplicated by innermost FrankyGo function pair.")
 chk("C16", "exploration", "runtime robustness monitor: grammar-aware FEN mutation + random bytes judged by round-trip/fixpoint/usability oracles; hostile UCI sessions against the real Loop with isready + position tracking after every line; crash attribution by per-case breadcrumbs and process restart",
